@@ -34,5 +34,13 @@ func init() {
 		seeded("C14", "C14-2", "C14-D1", "Deleter.KeyPruner"),
 		seeded("C18", "C18-2", "C18-E6", "bufwriter.Writer).Close"),
 		seeded("C20", "C20-1", "C20-M1", "Fuser).Write"),
+		// round 3
+		seeded("C07", "C07-2", "C07-D5", ""),
+		seeded("C08", "C08-2", "C08-N1", "dag.Merge"),
+		seeded("C13", "C13-2", "C13-R2", "journal.Store).Lookup called from"),
+		seeded("C12", "C13-2", "C12-F1", "journal.Store).Lookup called from"),
+		seeded("C16", "C16-2", "C16-B2", "Close assigns object"),
+		seeded("C17", "C17-2", "C17-O5", ""),
+		seeded("C19", "C19-2", "C19-E4", "late-error callback"),
 	)
 }
